@@ -51,6 +51,7 @@ fn dispatch(toks: &[&str]) -> String {
         "tokrt" | "escas" | "escint" | "unesc" | "menc" | "mdec" | "mfmt" => langrun::dispatch(toks),
         "dasmrt" => asmrun::dasmrt(toks),
         "dasmtext" => asmrun::dasmtext(toks),
+        "asmline" => asmrun::asmline(toks),
         "cells" => cross::cells(toks),
         "cross" => cross::cross(toks),
         "fsh" => fsrun::run(toks),
